@@ -724,6 +724,12 @@ class World(object):
     def block_until_readable(self, st, timeout_s):
         deadline = None if timeout_s is None else \
             self.now + int(round(timeout_s * 1e6))
+        if self.sched is not None and self.sched.active and \
+                self.sched.current is not None:
+            # ThreadSim: other threads run while this one blocks in recv()
+            self.sched.blocking_poll(
+                lambda: [1] if st.readable() else [], deadline)
+            return
         self.run_due()
         while not st.readable():
             nxt = self.next_time()
